@@ -1,14 +1,14 @@
 #!/bin/bash
 # usage: tools/seed_demo.sh <worktree> <pkgdir-relative> <demo-file> <RunRegex>
-# confirms: demonstration fails with the patch applied and passes with it reverted
+# confirms: demonstration fails with the patch applied and passes with it reverted (no git stash: it is shared by all worktrees)
 wt=$1; pkg=$2; demo=$3; re=$4
 cd $wt || exit 2
+git diff -- . ':!SEED' > /tmp/seedpatch.$$.diff
 cp SEED/$demo $pkg/zz_seed_demo_test.go
 export GOFLAGS=-mod=mod GOPROXY=off GOSUMDB=off GOTOOLCHAIN=local
 echo "--- with patch:"; go1.26.8 test -vet=off -count=1 -run "$re" ./$pkg 2>&1 | tail -4
-git stash -q -- . ':!SEED' ':!*zz_seed_demo_test.go' 2>/dev/null || git stash -q
-cp SEED/$demo $pkg/zz_seed_demo_test.go 2>/dev/null
+git apply -R /tmp/seedpatch.$$.diff || { echo "cannot revert"; exit 2; }
 echo "--- without patch:"; go1.26.8 test -vet=off -count=1 -run "$re" ./$pkg 2>&1 | tail -3
-git stash pop -q
-rm -f $pkg/zz_seed_demo_test.go
+git apply /tmp/seedpatch.$$.diff
+rm -f $pkg/zz_seed_demo_test.go /tmp/seedpatch.$$.diff
 git status --short | head -5
